@@ -309,7 +309,7 @@ pub fn run(tier: &str, seed: u64) -> i32 {
     }
     chk.evaluations = agg.c("climb_candidates") + agg.c("searches_after_long_games") + agg.c("texts_tried") + agg.c("uci_capacity_runs") + agg.c("autoplay_runs");
     chk.distinct_nontrivial = agg.c("climb_accepted_by_reader") + agg.c("games_at_interface_length_limit") + agg.c("texts_accepted");
-    chk.rule = "executions on the debug-assertions build (std unsafe-precondition checks for get_unchecked/unwrap_unchecked, arrayvec capacity asserts, Position asserts) and on the release build with the capacity gauges of the cfg hooks (abort before an unchecked push at capacity): (a) hill-climb over positions the reader accepts maximising the unchecked move count (reaches the 256 boundary if the reader lets such material through), then a search of the best position; (b) 398-ply games (the interface's limit) of material-stripping / king-walk / capture policies loaded with push_history, followed by searches with limit none/255/64/8-37 under a poll budget, state-stack high-water mark read from the gauge; (c) `rustybait auto 0|1|2|3|5|8` self-play on the debug-assertions binary until it ends, the real self-play loop (autoplay.rs) in-process with every search ended after a fixed number of polls (a ladder of 32 speeds + random ones: deterministic games, some of which run to the length limit), `position ... moves <398 plies>` + `go infinite|depth N` on the same binary, and over-long records (398-1000 plies, also followed by an illegal move) + `show` + `go` which must be refused cleanly, and 300-398-ply records followed by 150-260 `go`/`wait` pairs without a new `position` (whatever the engine keeps between searches must stay within the budget); (d) mutated corpus FENs that the reader accepts: generation, push/pop, display, shallow search; (e, thorough) Miri over FEN parsing, push/pop/get_moves and shallow searches; (f, thorough) an AddressSanitizer build of the binary under over-long records, hostile move strings, capacity runs, one self-play and generated multi-command sessions with schedule-point delays (heap/global out-of-bounds and use-after-free across the threads; any report is a violation). distinct_nontrivial = accepted climb candidates + games at the length limit + accepted mutant texts.".into();
+    chk.rule = "executions on the debug-assertions build (std unsafe-precondition checks for get_unchecked/unwrap_unchecked, arrayvec capacity asserts, Position asserts) and on the release build with the capacity gauges of the cfg hooks (abort before an unchecked push at capacity): (a) hill-climb over positions the reader accepts maximising the unchecked move count (reaches the 256 boundary if the reader lets such material through), then a search of the best position; (b) 398-ply games (the interface's limit) of material-stripping / king-walk / capture policies loaded with push_history, followed by searches with limit none/255/64/8-37 under a poll budget, state-stack high-water mark read from the gauge; (c) `rustybait auto 0|1|2|3|5|8` self-play on the debug-assertions binary until it ends, the real self-play loop (autoplay.rs) in-process with every search ended after a fixed number of polls (a ladder of 32 speeds + random ones: deterministic games, some of which run to the length limit), `position ... moves <398 plies>` + `go infinite|depth N` on the same binary, and over-long records (398-1000 plies, also followed by an illegal move) + `show` + `go` which must be refused cleanly, 300-398-ply records continued by 700 copies of one odd token (`0000`, `a1a1`, `e1e1`, ...) + `show` + `go depth 6`, and 300-398-ply records followed by 150-260 `go`/`wait` pairs without a new `position` (whatever the engine keeps between searches must stay within the budget); (d) mutated corpus FENs that the reader accepts: generation, push/pop, display, shallow search; (e, thorough) Miri over FEN parsing, push/pop/get_moves and shallow searches; (f, thorough) an AddressSanitizer build of the binary under over-long records, hostile move strings, capacity runs, one self-play and generated multi-command sessions with schedule-point delays (heap/global out-of-bounds and use-after-free across the threads; any report is a violation). distinct_nontrivial = accepted climb candidates + games at the length limit + accepted mutant texts.".into();
     chk.assumptions = vec![
         "ASan and valgrind do not see the capacity overflows (the writes land inside the same Game object / ArrayVec; measured again on the seeded changes C15-2 and C15-4, which the sanitizer build does not report): the checked build and the gauges are the detectors, the sanitizer pass is a secondary detector for heap and global accesses".into(),
         "'self-play of unbounded length' is restated as: until the program ends by itself, under a wall-clock watchdog whose expiry is inconclusive".into(),
@@ -326,6 +326,7 @@ pub fn run(tier: &str, seed: u64) -> i32 {
     chk.need("over-long game records sent to the binary", agg.c("overlong_record_runs"), 10);
     chk.need("over-long game records refused", agg.c("overlong_records_refused"), 8);
     chk.need("long records followed by chains of searches without a new position", agg.c("go_chain_runs"), 2);
+    chk.need("long records with a tail of one odd token repeated", agg.c("odd_token_tail_runs"), 4);
     chk.need("hostile move strings sent to the debug-assertions binary", agg.c("hostile_move_strings"), 10000);
     chk.need("workers on the debug-assertions build", agg.c("workers_checked"), 8);
     finalize(chk, &agg)
